@@ -21,7 +21,7 @@ import z3
 from pyvc.harness import REGISTRY, contract
 from pyvc.sym import cur
 
-from . import c03_neurons, c04_synapses, c05_connections, c06_delays, c09_split, c17_layers  # noqa: F401  (registers)
+from . import c03_neurons, c04_synapses, c05_connections, c06_delays, c09_split, c17_layers, c18_dastdp  # noqa: F401  (registers)
 
 P = "C11"
 
